@@ -6,6 +6,7 @@ package main
 import (
 	"bufio"
 	"bytes"
+	"errors"
 	"fmt"
 	"io"
 	"net"
@@ -445,9 +446,47 @@ func stateOf(side ref.Side) ws.State {
 }
 
 // destination that remembers what it was given (copy at call time).
-type keepDst struct{ data []byte }
+// watch is the caller's slice as the destination can see it while it is being
+// written to: it must hold what the caller left there at every such moment.
+type watch struct {
+	p, want []byte
+	bad     int
+	badAt   int
+}
 
-func (k *keepDst) Write(p []byte) (int, error) { k.data = append(k.data, p...); return len(p), nil }
+type keepDst struct {
+	data   []byte
+	w      *watch
+	failAt int // total bytes accepted before the destination fails (-1: never)
+	failed bool
+}
+
+var errDstFail = errors.New("destination write failed")
+
+func (k *keepDst) Write(p []byte) (int, error) {
+	if k.w != nil && !bytes.Equal(k.w.p, k.w.want) {
+		if k.w.bad == 0 {
+			for i := range k.w.p {
+				if k.w.p[i] != k.w.want[i] {
+					k.w.badAt = i
+					break
+				}
+			}
+		}
+		k.w.bad++
+	}
+	if k.failAt >= 0 && len(k.data)+len(p) > k.failAt {
+		n := k.failAt - len(k.data)
+		if n < 0 {
+			n = 0
+		}
+		k.data = append(k.data, p[:n]...)
+		k.failed = true
+		return n, errDstFail
+	}
+	k.data = append(k.data, p...)
+	return len(p), nil
+}
 
 func scribble(p []byte) {
 	for i := range p {
@@ -466,8 +505,15 @@ func subWriteSide() mon.Sub {
 			orig := make([]byte, sz)
 			c.Rng.Read(orig)
 			p := append([]byte(nil), orig...)
-			dst := &keepDst{}
-			det := map[string]interface{}{"api": api, "size": sz}
+			wt := &watch{p: p, want: append([]byte(nil), orig...)}
+			dst := &keepDst{w: wt, failAt: -1}
+			failing := c.I/len(apis)/len(sizes) == 2 && !strings.HasPrefix(api, "MaskFrame") && api != "UnmaskFrame"
+			if failing {
+				// the destination fails half way through (short count + error)
+				dst.failAt = sz / 2
+			}
+			scrib := func(lo, hi int) { scribble(wt.p[lo:hi]); scribble(wt.want[lo:hi]) }
+			det := map[string]interface{}{"api": api, "size": sz, "destination_fails_after": dst.failAt}
 			var err error
 			var out ws.Frame
 			reuse := true // the caller scribbles its slice after the call; the wire must still carry the original
@@ -503,7 +549,7 @@ func subWriteSide() mon.Sub {
 						c.Fail("mutates-caller/"+api, api+" modified the caller's slice", det)
 						return
 					}
-					scribble(piece)
+					scrib(off, off+k)
 					off += k
 				}
 				if err == nil {
@@ -525,7 +571,7 @@ func subWriteSide() mon.Sub {
 						c.Fail("mutates-caller/"+api, api+" modified the caller's slice", det)
 						return
 					}
-					scribble(p)
+					scrib(0, len(p))
 					err = w.Flush()
 					p = append([]byte(nil), orig...)
 					reuse = false
@@ -553,6 +599,27 @@ func subWriteSide() mon.Sub {
 				f := ws.NewBinaryFrame(p)
 				f.Header.Masked, f.Header.Mask = true, [4]byte{5, 6, 7, 8}
 				out = ws.UnmaskFrame(f)
+			}
+			if wt.bad > 0 {
+				det["first_changed_byte"] = wt.badAt
+				c.Fail("mutates-caller-during-write/"+api, fmt.Sprintf("%s: the caller's slice did not hold the caller's bytes while the destination was being written to (%d destination writes saw it changed)", api, wt.bad), det)
+				return
+			}
+			if failing {
+				if !dst.failed {
+					c.Fail("harness/no-failure", api+": the destination never reached its failure point", det)
+					return
+				}
+				if !bytes.Equal(wt.p, wt.want) {
+					c.Fail("mutates-caller-on-error/"+api, api+" left the caller's slice modified after the destination returned an error", det)
+					return
+				}
+				traffic(c, c.I)
+				if !checkAlarms(c, "write-side") {
+					return
+				}
+				c.Classf("%s size=%d dst-fails", api, sz)
+				return
 			}
 			if err != nil {
 				c.Fail("harness/write-error", api+": "+err.Error(), det)
